@@ -1212,7 +1212,7 @@ func (mgr *Manager) UpdateTag(name string, operation UpdateTagOperation) error {
 				return errors.New("self reference not allowed in tags")
 			}
 		}
-		if strings.HasPrefix(name, "mark/") {
+		if strings.HasPrefix(name, "mark/") || strings.HasPrefix(name, "generated/") {
 			if _, ok := q.Conditions.StreamIDs(0); !ok {
 				return errors.New("tags of type `mark` have to only contain an `id` filter")
 			}
